@@ -361,6 +361,7 @@ type Query struct {
 // is tested twice on a path without an intervening assignment to a variable it mentions, the second test must
 // agree with the first. This removes the classic infeasible-path false alarm.
 func (f *Flow) Reach(q Query) ([]Pt, bool) {
+	curInfo = f.Info
 	f.P.countPaths()
 	corr := f.corrAtoms()
 	if q.NoCorr {
@@ -518,6 +519,7 @@ func (f *Flow) corrAtoms() map[string][]types.Object {
 	if f.corr != nil {
 		return f.corr
 	}
+	curInfo = f.Info
 	count := map[string]int{}
 	objs := map[string][]types.Object{}
 	for _, b := range f.G.Blocks {
@@ -1101,11 +1103,40 @@ type cfgBlock = cfg.Block
 // canonAtom: `x != y` is the same fact as `x == y` with the opposite truth (so that `if err == nil {…}; if err != nil`
 // correlates).
 func canonAtom(af atomFact) (string, bool) {
+	ids := objIDs(af.E)
 	if be, ok := ast.Unparen(af.E).(*ast.BinaryExpr); ok && be.Op == token.NEQ {
-		return exprStr(be.X) + " == " + exprStr(be.Y), !af.T
+		return exprStr(be.X) + " == " + exprStr(be.Y) + ids, !af.T
 	}
-	return exprStr(af.E), af.T
+	return exprStr(af.E) + ids, af.T
 }
+
+// objIDs distinguishes equally spelled conditions over different variables (`err` shadowed in an if-init): the
+// declaration positions of the identifiers' objects are part of the fact's key.
+func objIDs(e ast.Expr) string {
+	if theProg == nil {
+		return ""
+	}
+	s := ""
+	ast.Inspect(e, func(n ast.Node) bool {
+		if id, ok := n.(*ast.Ident); ok {
+			for _, pk := range []*types.Info{curInfo} {
+				if pk == nil {
+					continue
+				}
+				if o := pk.Uses[id]; o != nil {
+					if _, isVar := o.(*types.Var); isVar {
+						s += "@" + itoa(int(o.Pos()))
+					}
+				}
+			}
+		}
+		return true
+	})
+	return s
+}
+
+// curInfo: type information of the function whose flow is being queried (set by Reach / corrAtoms / seedFacts).
+var curInfo *types.Info
 
 type atomFact struct {
 	E ast.Expr
